@@ -271,6 +271,11 @@ def run_shard(ctx):
                 spaced = sgr.cells(str(CHText("-").join(c0)))
                 wmodel = [(ch, want0) for ch in text0]
                 smodel = [x for k, ch in enumerate(text0) for x in ([("-", sgr.DEFAULT)] if k else []) + [(ch, want0)]]
+                # ... and a text made of this one chunk is padded to a fixed width: the padding is nobody's text, it has
+                # the terminal's own look (and what follows is back in the default state)
+                padded = sgr.cells(str(CHText(c0).fixed_len(len(text0) + 3)) + "|")
+                if padded != wmodel + [(" ", sgr.DEFAULT)] * 3 + [("|", sgr.DEFAULT)]:
+                    ctx.violation("padding-of-a-fixed-width-text-is-coloured", {"text": text0, "shown": str(padded)[:120]}, case)
                 if walked != wmodel or rebuilt != wmodel or spaced != smodel:
                     ctx.violation("pieces-of-a-chunk-show-something-else", {"text": text0, "walked": str(walked)[:80],
                                                                             "joined": str(spaced)[:80]}, case)
